@@ -173,6 +173,16 @@ ADAPTORS = {
 }
 
 
+# adaptors whose OUTPUT depends on the position of an element in the sequence: an index is attached (enumerate), a
+# prefix / suffix / stride is selected (take, skip, step_by, *_while), neighbours are paired (tuple_windows, zip, dedup,
+# chunk_by, scan) or ordered tuples are formed (combinations, permutations).  Whatever consumes them afterwards, the
+# hash order has already leaked into the items themselves.
+POSITIONAL_ADAPTORS = {
+    "enumerate", "zip", "skip", "take", "step_by", "skip_while", "take_while", "map_while", "scan", "dedup", "dedup_by",
+    "chunk_by", "combinations", "permutations", "tuple_windows", "rev", "cycle", "tuple_combinations", "chunks", "windows",
+}
+
+
 def natural_loop_blocks(body, header):
     """blocks of the natural loop(s) whose header is `header`"""
     blocks = {header}
@@ -251,6 +261,8 @@ def classify_loop_body(body, flow, effects, loop_blocks, next_bb):
             continue
         if k.startswith("Iterator::") or k in ("Deref::deref", "DerefMut::deref_mut", "Index::index", "Option::unwrap", "Option::as_mut", "Option::take", "IntoIterator::into_iter", "Clone::clone", "mem::take", "mem::swap", "mem::replace"):
             continue
+        if k.split("::")[0] in ("Add", "Sub", "Mul", "Div", "Rem", "Neg", "Not", "BitAnd", "BitOr", "BitXor", "Shl", "Shr", "PartialEq", "PartialOrd", "Ord", "Eq", "Borrow", "AsRef", "ToOwned", "Into", "From", "Display", "Debug"):
+            continue  # operator / comparison / conversion traits taking their operands by shared reference or by value: no effect on the operands
         bump("ORDER", "unclassified effect %s on %s at %s" % (k, ty, loc_str(site.span)))
     # early exit out of the loop that is not via the iterator's None (break/return inside) = first-match
     for bb in loop_blocks:
@@ -455,6 +467,8 @@ def _follow(prog, b, fl, effects, site, local, seen):
         last = nm.split("::")[-1]
         if nm != "std::iter::Iterator::next" and (_contains_hash_iter(dty) or (last in ADAPTORS and (t.args[0].place is not None and t.args[0].place.local in aliases))):
             # adaptor (map/filter/cloned/into_iter/by_ref/...): keep following
+            if last in POSITIONAL_ADAPTORS and nm.split("::")[0] in ("std", "core", "itertools") and (t.args[0].place is not None and t.args[0].place.local in aliases):
+                site.consumers.append((t, "ORDER", "%s forms its items from the POSITION of the elements in hash order" % last))
             _follow(prog, b, fl, effects, site, t.dest.local, seen)
             continue
         # consumer
